@@ -306,6 +306,10 @@ type runner struct {
 	// evidence shows cases of every space
 	nspace, cnt, pending int
 	sampleHere           bool
+	// the document of the previous case as the exporter returned it, a copy taken at once, and its tree:
+	// a document must stay what it was when later values are exported
+	prevDoc, prevCopy []byte
+	prevTree          *et.Node
 }
 
 const nSpaces = 5
@@ -339,6 +343,15 @@ func (r *runner) check(n *et.Node, _ bool, countNontrivial bool) {
 	ctx.Eval()
 	v := verify(r.b, n)
 	ctx.Outcome(v.class)
+	if r.prevTree != nil && !bytes.Equal(r.prevDoc, r.prevCopy) {
+		ctx.Outcome("earlier-document-changed")
+		ctx.Violate("the document of an earlier export changed when a later value was exported", map[string]any{"tree": n.ToRepro(), "earlier": r.prevTree.ToRepro()},
+			fmt.Sprintf("%q", trunc(r.prevCopy)), fmt.Sprintf("%q", trunc(r.prevDoc)), "")
+	}
+	r.prevTree, r.prevDoc, r.prevCopy = nil, nil, nil
+	if v.doc != nil {
+		r.prevTree, r.prevDoc, r.prevCopy = n, v.doc, append([]byte(nil), v.doc...)
+	}
 	if v.ok {
 		if countNontrivial && nontrivialDoc(n, v.doc) {
 			h := fnv.New64a()
@@ -547,6 +560,20 @@ func replay(repro map[string]any) (string, bool) {
 	if err != nil {
 		return "cannot decode the case: " + err.Error(), true
 	}
+	if e, ok := repro["earlier"]; ok {
+		en, err := et.FromRepro(e)
+		if err != nil {
+			return "cannot decode the earlier case: " + err.Error(), true
+		}
+		b := et.NewBuilder()
+		ev := verify(b, en)
+		kept := append([]byte(nil), ev.doc...)
+		verify(b, n)
+		if !bytes.Equal(ev.doc, kept) {
+			return fmt.Sprintf("the document %q of the earlier export reads %q after the later export", trunc(kept), trunc(ev.doc)), true
+		}
+		return fmt.Sprintf("the document %q of the earlier export is unchanged after the later export", trunc(kept)), false
+	}
 	v := verify(et.NewBuilder(), n)
 	if v.ok {
 		return fmt.Sprintf("document %q decodes to the value", v.doc), false
@@ -558,7 +585,7 @@ func main() {
 	bex.Main(&bex.Check{
 		ID:    "C17",
 		Level: "exploration",
-		Rule: "a case is one value tree (description in internal/exptree) built through the public API in a named representation, exported by export.Export(…, export.JSON()) and decoded by encoding/json (json.Valid, then a token-level decode that keeps duplicates); pass = arrays in order, objects with exactly the map's key set and no duplicate, every scalar the JSON string of its string form. " +
+		Rule: "a case is one value tree (description in internal/exptree) built through the public API in a named representation, exported by export.Export(…, export.JSON()) and decoded by encoding/json (json.Valid, then a token-level decode that keeps duplicates); pass = arrays in order, objects with exactly the map's key set and no duplicate, every scalar the JSON string of its string form; the document of every case is kept (as returned) and must be unchanged after the next case has been exported. " +
 			"distinct_nontrivial = distinct exported documents that contain an escape sequence, a non-ASCII byte or nesting depth >= 2 (tree spaces: counted for variant 0 only); counted per worker by a hash of the document and summed — all representations of one string / shape run in the same worker, so equal documents are not counted twice",
 		Assumptions: []string{
 			"strings and keys are valid UTF-8 (the property's domain); map keys are distinct (duplicate keys are C13's subject)",
